@@ -52,6 +52,7 @@ class Hub:
         self.scan_events: list = []
         self.judges = {"C01", "C03", "C05", "C06", "C07", "C15", "C17", "SCAN"}
         self.depth = 0
+        self.tag = None  # label set by a driver so that offline checkers can find their operands in the log
 
     def reset(self, acc: Acc | None = None) -> None:
         self.acc = acc or Acc()
@@ -401,6 +402,7 @@ def _wrap_rule_assert():
         _purity(before, after, "Rule.assert_applies", cfg)
         ev = Event("Rule.assert_applies", cfg, outcome, msg, et, id(evaluable), _truth_for(evaluable, before))
         ev.extra["trace"] = list(map(list, trace_of(self)))
+        ev.extra["tag"] = HUB.tag
         if HUB.keep_log:
             HUB.log.append(ev)
         self.__dict__["_pta_last_event"] = ev
